@@ -211,7 +211,7 @@ class Realiser:
         if rng.random() < 0.4:
             argv += rng.choice([["--dry-run"], ["--verbose"], ["--no-dry-run"], ["--log-format", "json"], ["--project-name", "p"],
                                 ["--codemod-include", "pixee:python/use-set-literal"], ["--output-format", "codetf"],
-                                ["--path-include", "*.py", "--path-include", "a.py"]])
+                                ["--path-include", "*.py", "--path-include", "a.py"]][:7 if w["bad_line"] else 8])   # a repeated option replaces the earlier value
         # argparse outcome
         if w["argparse"] == 1:
             kind = variant if variant in PARSE_ERRORS else rng.choice(list(PARSE_ERRORS))
